@@ -821,7 +821,7 @@ func main() {
 	text := load(repo, "jsontext", "jsontext")
 	root := load(repo, ".", "json")
 
-	header := "-- GENERATED by /verif/tools/translate from the Go sources; do not edit.\n-- Regenerated (after deletion) on every check run.\n"
+	header := "-- GENERATED by /verif/tools/translate from the Go sources; do not edit.\n-- Regenerated (after deletion) on every check run.\nset_option linter.unusedVariables false\n"
 
 	var c strings.Builder
 	c.WriteString(header)
